@@ -3,7 +3,7 @@
     structurally valid geometry on arbitrary bytes (C03), and skipping attribute transforms only
     changes the skipped attributes (C10).  The symbol coder and the metadata coder are parameters; only
     their round-trip laws (and, for C03, that the symbol decoder returns the announced count) are assumed. *)
-From Coq Require Import ZifyBool.
+From Coq Require Import ZifyBool Znumtheory.
 From Draco Require Import Base.Codec Base.Bits Base.Float32 Gen.Constants Model.Varint Model.Wrap Model.Quantize
   Model.SeqAttr Model.SeqCodec Proofs.Varint_proofs Proofs.Wrap_proofs Proofs.Quantize_proofs Proofs.SeqAttr_proofs.
 Local Open Scope Z_scope.
@@ -517,11 +517,12 @@ Section Atts.
   Hypothesis sym_law : forall method lvl nc syms bs rest, sym_guard' nc syms ->
     enc_syms method lvl nc syms = Some bs -> dec_syms (length syms) (Z.to_nat nc) (bs ++ rest) = Some (syms, rest).
 
-  (** what the integer coder needs of the portable rows: the delta range condition (its failure is defect D7)
-      and the guard of the symbol coder on the symbols actually passed to it *)
+  (** what the integer coder needs of the portable rows: the guard of the symbol coder on the symbols actually
+      passed to it (only when the entropy coder is used).  The delta range condition is not needed: since the
+      fix of D7 a successful encode implies it. *)
   Definition att_int_ok (a : attribute) : Prop :=
-    forall o rows, att_opts a = Some o -> portable_rows a = Some rows ->
-      int_block_ok o rows /\ (io_builtin o = true -> sym_guard' (Z.of_nat (att_nc a)) (int_block_syms o (att_nc a) rows)).
+    forall o rows, att_opts a = Some o -> portable_rows a = Some rows -> io_builtin o = true ->
+      sym_guard' (Z.of_nat (att_nc a)) (int_block_syms o (att_nc a) rows).
 
   Lemma enc_values_eq a :
     enc_values enc_syms a =
@@ -577,7 +578,7 @@ Section Atts.
       unfold att_opts in He, Hint. unfold att_int_ok, att_opts in Hint. rewrite Ek in He, Hint.
       destruct (portable_rows a) as [rows|] eqn:Ep; [|discriminate].
       destruct (portable_rows_shape np a rows Hok Ep) as [Hl Hsh].
-      destruct (Hint o rows eq_refl eq_refl) as [Hio Hg].
+      pose proof (Hint o rows eq_refl eq_refl) as Hg.
       rewrite <- Hl. apply (int_block_roundtrip enc_syms dec_syms sym_guard' sym_law o (att_nc a) rows bs rest);
         try assumption.
       + unfold att_nc. lia.
@@ -589,7 +590,7 @@ Section Atts.
       unfold att_int_ok, att_opts in Hint. unfold att_opts in He. rewrite Ek in He, Hint.
       destruct (portable_rows a) as [rows|] eqn:Ep; [|discriminate].
       destruct (portable_rows_shape np a rows Hok Ep) as [Hl Hsh].
-      destruct (Hint o rows eq_refl eq_refl) as [Hio Hg].
+      pose proof (Hint o rows eq_refl eq_refl) as Hg.
       rewrite <- Hl. apply (int_block_roundtrip enc_syms dec_syms sym_guard' sym_law o (att_nc a) rows bs rest);
         try assumption.
       + unfold att_nc. lia.
@@ -622,6 +623,19 @@ Section Atts.
       fold (att_nc a). rewrite <- Hlen. rewrite (params_roundtrip p ts rest V He).
       rewrite words_back by (apply (generate_portable_words _ _ _ Eg)).
       destruct (inverse_transform_ok p _ words V Eg) as (fr & Ei & _). rewrite Ei. reflexivity.
+  Qed.
+
+  (** when the symbol coder's guard is implied by the basic facts (at least one component, a non-empty
+      array of uint32 symbols whose length is a multiple of the component count), nothing remains to be shown
+      of an attribute with at least one point *)
+  Lemma att_int_ok_basic np a : (forall nc syms, sym_guard_basic nc syms -> sym_guard' nc syms) ->
+    att_ok np a -> (0 < np)%nat -> att_int_ok a.
+  Proof.
+    intros Hb Hok Hnp o rows Ho Hp _. apply Hb.
+    destruct (portable_rows_shape np a rows Hok Hp) as [Hl Hsh].
+    pose proof Hok as ((_ & _ & Hnc & _) & _).
+    apply int_block_syms_basic; [unfold att_nc; lia| |exact Hsh].
+    destruct rows; [cbn in Hl; lia|congruence].
   Qed.
 
   Definition desc_kinds (atts : list attribute) : list (att_desc * Z) :=
@@ -836,3 +850,310 @@ Section Streams.
     injection H1 as <- <-. injection H2 as <- <-. repeat split; reflexivity.
   Qed.
 End Streams.
+
+(** * 2f. structural validity of whatever the sequential decoders return (C03), arbitrary bytes *)
+
+Definition rows_shape (n nc : nat) (rows : list (list Z)) : Prop :=
+  length rows = n /\ Forall (fun r => length r = nc) rows.
+(** a decoded attribute holds one value per point, each with the announced number of components *)
+Definition att_valid (np : nat) (a : dec_att) : Prop := rows_shape np (Z.to_nat (ad_nc (da_desc a))) (da_rows a).
+
+Lemma rows_shape_map n nc (f : Z -> Z) rows : rows_shape n nc rows -> rows_shape n nc (map (map f) rows).
+Proof.
+  intros [H1 H2]. split; [rewrite map_length; exact H1|].
+  apply Forall_forall. intros r Hr. apply in_map_iff in Hr. destruct Hr as (r' & <- & Hr').
+  rewrite map_length. rewrite Forall_forall in H2. apply H2, Hr'.
+Qed.
+
+Lemma dequantize_row_len read delta : forall ws mins vs, dequantize_row read delta mins ws = Ok vs -> length vs = length ws.
+Proof.
+  induction ws as [|w ws IH]; intros mins vs H; cbn [dequantize_row] in H.
+  - injection H as <-. reflexivity.
+  - destruct mins as [|mn mins]; [discriminate|].
+    destruct (dequantize_row read delta mins ws) as [vs'| |] eqn:E; cbn [rbind] in H; try discriminate.
+    injection H as <-. cbn [length]. rewrite (IH _ _ E). reflexivity.
+Qed.
+
+Lemma inverse_transform_shape p words fr : inverse_transform p words = Ok fr ->
+  Forall2 (fun w f => length f = length w) words fr.
+Proof.
+  unfold inverse_transform, inverse_with.
+  destruct (inv_max_q (qp_bits p)) as [mq| |]; cbn [rbind]; try discriminate.
+  destruct (dequantizer_init (qp_range p) mq) as [delta| |]; cbn [rbind]; try discriminate.
+  intros H. apply rmap_Forall2 in H. eapply Forall2_imp; [|exact H]. cbv beta. intros w f Hf.
+  apply (dequantize_row_len _ _ _ _ _ Hf).
+Qed.
+
+Lemma rows_shape_floats n nc words fr : rows_shape n nc words -> Forall2 (fun (w : list Z) (f : list f32) => length f = length w) words fr ->
+  rows_shape n nc (map (map bits_of_f32) fr).
+Proof.
+  intros [H1 H2] HF. split; [rewrite map_length, <- (Forall2_len _ _ _ HF); exact H1|].
+  clear H1. induction HF as [|w f ws fs Hwf _ IH]; [constructor|].
+  apply Forall_cons_iff in H2. destruct H2 as [Hw H2]. cbn [map]. constructor; [rewrite map_length; lia|apply IH; exact H2].
+Qed.
+
+Lemma triples_in : forall n l, (length l <= n)%nat -> forall a b c, In (a, b, c) (triples l) -> In a l /\ In b l /\ In c l.
+Proof.
+  induction n as [|n IH]; intros l Hl a b c Hin.
+  - destruct l; [contradiction|cbn in Hl; lia].
+  - destruct l as [|x [|y [|z l']]]; cbn [triples] in Hin; try contradiction.
+    destruct Hin as [E|Hin].
+    + injection E as <- <- <-. cbn; tauto.
+    + destruct (IH l' ltac:(cbn [length] in Hl; lia) a b c Hin) as (H1 & H2 & H3). cbn; tauto.
+Qed.
+
+Section Valid.
+  Variable dec_syms : nat -> nat -> bytes -> option (list Z * bytes).
+  (** the symbol decoder returns the announced count, for counts that are a multiple of the component count
+      (what the attribute decoders pass; without divisibility the real coder can return more) *)
+  Hypothesis sym_len : forall n nc bs syms r, (1 <= nc)%nat -> (exists k, n = (k * nc)%nat) ->
+    dec_syms n nc bs = Some (syms, r) -> length syms = n.
+  Variable skip : Z -> bool.
+
+  Lemma dec_values_shape np d kid bs rows r : dec_values dec_syms np d kid bs = Some (rows, r) ->
+    rows_shape np (Z.to_nat (ad_nc d)) rows.
+  Proof.
+    unfold dec_values, rows_shape. intros H.
+    destruct (kid =? SEQUENTIAL_ATTRIBUTE_ENCODER_GENERIC_); [apply (dec_generic_shape _ _ _ _ _ _ H)|].
+    destruct (kid =? SEQUENTIAL_ATTRIBUTE_ENCODER_INTEGER_); [apply (dec_int_block_shape dec_syms sym_len _ _ _ _ _ H)|].
+    destruct (kid =? SEQUENTIAL_ATTRIBUTE_ENCODER_QUANTIZATION_); [|discriminate].
+    destruct (ad_dt d =? DT_FLOAT32_); [|discriminate]. apply (dec_int_block_shape dec_syms sym_len _ _ _ _ _ H).
+  Qed.
+
+  Lemma finish_att_valid np d kid rows bs a r : rows_shape np (Z.to_nat (ad_nc d)) rows ->
+    finish_att skip d kid rows bs = Some (a, r) -> att_valid np a.
+  Proof.
+    intros Hs H. unfold finish_att in H. unfold att_valid.
+    destruct (kid =? SEQUENTIAL_ATTRIBUTE_ENCODER_GENERIC_).
+    { injection H as <- _. exact Hs. }
+    destruct (kid =? SEQUENTIAL_ATTRIBUTE_ENCODER_INTEGER_).
+    { destruct (skip (ad_type d)).
+      - injection H as <- _. cbn [da_desc da_rows ad_nc]. apply rows_shape_map. exact Hs.
+      - destruct (dt_is_int (ad_dt d)); [|discriminate]. injection H as <- _. cbn [da_desc da_rows]. apply rows_shape_map. exact Hs. }
+    destruct (decode_parameters _ bs) as [[p r']|]; [|discriminate].
+    destruct (skip (ad_type d)).
+    - injection H as <- _. cbn [da_desc da_rows ad_nc]. apply rows_shape_map. exact Hs.
+    - destruct (inverse_transform p _) as [fr| |] eqn:Ei; try discriminate. injection H as <- _. cbn [da_desc da_rows].
+      apply (rows_shape_floats _ _ _ _ (rows_shape_map _ _ _ _ Hs) (inverse_transform_shape _ _ _ Ei)).
+  Qed.
+
+  Lemma dec_all_values_shape np : forall ds bs rowss r, dec_all_values dec_syms np ds bs = Some (rowss, r) ->
+    Forall2 (fun dk rows => rows_shape np (Z.to_nat (ad_nc (fst dk))) rows) ds rowss.
+  Proof.
+    induction ds as [|[d kid] ds IH]; intros bs rowss r H; cbn [dec_all_values] in H.
+    - injection H as <- _. constructor.
+    - destruct (dec_values dec_syms np d kid bs) as [[rows r1]|] eqn:Ev; [|discriminate].
+      destruct (dec_all_values dec_syms np ds r1) as [[l r2]|] eqn:Ea; [|discriminate].
+      injection H as <- _. constructor; [apply (dec_values_shape _ _ _ _ _ _ Ev)|apply (IH _ _ _ Ea)].
+  Qed.
+
+  Lemma finish_all_valid np : forall ds rowss, Forall2 (fun dk rows => rows_shape np (Z.to_nat (ad_nc (fst dk))) rows) ds rowss ->
+    forall bs atts r, finish_all skip ds rowss bs = Some (atts, r) -> Forall (att_valid np) atts.
+  Proof.
+    induction 1 as [|[d kid] rows ds rowss Hs _ IH]; intros bs atts r H; cbn [finish_all] in H.
+    - injection H as <- _. constructor.
+    - destruct (finish_att skip d kid rows bs) as [[a r1]|] eqn:Ef; [|discriminate].
+      destruct (finish_all skip ds rowss r1) as [[l r2]|] eqn:Ea; [|discriminate].
+      injection H as <- _. constructor; [apply (finish_att_valid _ _ _ _ _ _ _ Hs Ef)|apply (IH _ _ _ Ea)].
+  Qed.
+
+  Lemma dec_decoders_atts_valid np : forall dds bs atts r, dec_decoders_atts dec_syms skip np dds bs = Some (atts, r) ->
+    Forall (att_valid np) atts.
+  Proof.
+    induction dds as [|ds dds IH]; intros bs atts r H; cbn [dec_decoders_atts] in H.
+    - injection H as <- _. constructor.
+    - destruct (dec_all_values dec_syms np ds bs) as [[rowss r1]|] eqn:Ev; [|discriminate].
+      destruct (finish_all skip ds rowss r1) as [[atts1 r2]|] eqn:Ef; [|discriminate].
+      destruct (dec_decoders_atts dec_syms skip np dds r2) as [[l r3]|] eqn:Ed; [|discriminate].
+      injection H as <- _. apply Forall_app. split; [|apply (IH _ _ _ Ed)].
+      apply (finish_all_valid np ds rowss (dec_all_values_shape _ _ _ _ _ Ev) _ _ _ Ef).
+  Qed.
+
+  Theorem dec_attributes_valid np bs atts r : dec_attributes dec_syms skip np bs = Some (atts, r) -> Forall (att_valid np) atts.
+  Proof.
+    unfold dec_attributes. destruct bs as [|nd r0]; [discriminate|].
+    destruct (dec_decoders_data _ r0) as [[dds r1]|]; [|discriminate]. apply dec_decoders_atts_valid.
+  Qed.
+
+  Theorem dec_connectivity_valid bs np faces r : dec_connectivity dec_syms bs = Some (np, faces, r) ->
+    forall a b c, In (a, b, c) faces -> a < np /\ b < np /\ c < np.
+  Proof.
+    unfold dec_connectivity. intros H.
+    destruct (dec_varint_u 32 bs) as [[nf r0]|]; [|discriminate].
+    destruct (dec_varint_u 32 r0) as [[np' r1]|]; [|discriminate].
+    destruct (nf >? _); [discriminate|]. destruct (nf >? _); [discriminate|].
+    destruct r1 as [|cm r2]; [discriminate|].
+    match type of H with match ?x with _ => _ end = _ => destruct x as [[l r3]|]; [|discriminate] end.
+    destruct (forallb (fun i => i <? np') l) eqn:Ef; [|discriminate]. injection H as <- <- _.
+    intros a b c Hin. destruct (triples_in (length l) l (le_n _) a b c Hin) as (Ha & Hb & Hc).
+    rewrite forallb_forall in Ef. pose proof (Ef a Ha). pose proof (Ef b Hb). pose proof (Ef c Hc). lia.
+  Qed.
+
+  Context {MD : Type}.
+  Variable dec_md : bytes -> option (MD * bytes).
+
+  (** C03 for the sequential point-cloud decoder *)
+  Theorem seq_pc_decode_valid bs g rest : dec_pc_seq dec_syms dec_md skip bs = Some (g, rest) ->
+    Forall (att_valid (Z.to_nat (dp_npoints g))) (dp_atts g).
+  Proof.
+    unfold dec_pc_seq. intros H. destruct (dec_header bs) as [[[h r0]|]|]; try discriminate.
+    do 4 (match type of H with (if ?c then None else _) = _ => destruct c; [discriminate|] end).
+    match type of H with match ?x with _ => _ end = _ => destruct x as [[md r1]|]; [|discriminate] end.
+    destruct (dec_le 4 r1) as [[np r2]|]; [|discriminate].
+    destruct (dec_attributes dec_syms skip (Z.to_nat np) r2) as [[atts r3]|] eqn:Ea; [|discriminate].
+    injection H as <- _. cbn [dp_npoints dp_atts]. apply (dec_attributes_valid _ _ _ _ Ea).
+  Qed.
+
+  (** C03 for the sequential mesh decoder: every face index names a decoded point, every attribute is well shaped *)
+  Theorem seq_mesh_decode_valid bs g rest : dec_mesh_seq dec_syms dec_md skip bs = Some (g, rest) ->
+    (forall a b c, In (a, b, c) (dm_faces g) -> a < dm_npoints g /\ b < dm_npoints g /\ c < dm_npoints g) /\
+    Forall (att_valid (Z.to_nat (dm_npoints g))) (dm_atts g).
+  Proof.
+    unfold dec_mesh_seq. intros H. destruct (dec_header bs) as [[[h r0]|]|]; try discriminate.
+    do 4 (match type of H with (if ?c then None else _) = _ => destruct c; [discriminate|] end).
+    match type of H with match ?x with _ => _ end = _ => destruct x as [[md r1]|]; [|discriminate] end.
+    destruct (dec_connectivity dec_syms r1) as [[[np faces] r2]|] eqn:Ec; [|discriminate].
+    destruct (dec_attributes dec_syms skip (Z.to_nat np) r2) as [[atts r3]|] eqn:Ea; [|discriminate].
+    injection H as <- _. cbn [dm_npoints dm_atts dm_faces].
+    split; [apply (dec_connectivity_valid _ _ _ _ Ec)|apply (dec_attributes_valid _ _ _ _ Ea)].
+  Qed.
+End Valid.
+
+(** * 2h. skipping attribute transforms (C10), arbitrary bytes *)
+
+Definition portable_desc (d : att_desc) : att_desc :=
+  {| ad_type := ad_type d; ad_dt := DT_INT32_; ad_nc := ad_nc d; ad_norm := false; ad_uid := ad_uid d |}.
+
+(** [att_refines skip a0 a]: [a0] is an attribute of the normal decode, [a] the same attribute decoded with
+    the option.  Generic attributes and attributes whose type is not skipped are identical.  A skipped integer
+    attribute is the int32 portable attribute, whose conversion gives exactly the normal values.  A skipped
+    quantized attribute holds the quantized words and the transform parameters, and InverseTransformAttribute
+    of those gives exactly the normal values. *)
+Definition att_refines (skip : Z -> bool) (a0 a : dec_att) : Prop :=
+  da_kind_id a = da_kind_id a0 /\
+  if (da_kind_id a0 =? SEQUENTIAL_ATTRIBUTE_ENCODER_GENERIC_) || negb (skip (ad_type (da_desc a0))) then a = a0
+  else
+    da_desc a = portable_desc (da_desc a0) /\ da_tdata a0 = None /\
+    if da_kind_id a0 =? SEQUENTIAL_ATTRIBUTE_ENCODER_INTEGER_ then
+      da_tdata a = None /\ map (map (of_int32_value (ad_dt (da_desc a0)))) (da_rows a) = da_rows a0
+    else exists p fr, da_tdata a = Some p /\ inverse_transform p (da_rows a) = Ok fr /\
+                      da_rows a0 = map (map bits_of_f32) fr.
+
+Lemma of_int32_mod dt v : dt_is_int dt = true -> of_int32_value dt (v mod 2 ^ 32) = of_int32_value dt v.
+Proof.
+  intros H. apply dt_is_int_spec in H. unfold of_int32_value. symmetry.
+  destruct H as [ -> | [ -> | [ -> | [ -> | [ -> | -> ]]]]];
+    (apply Zmod_div_mod; [reflexivity|reflexivity|]);
+    [exists (2 ^ 24)|exists (2 ^ 24)|exists (2 ^ 16)|exists (2 ^ 16)|exists 1|exists 1]; reflexivity.
+Qed.
+
+Lemma map_map_ext (f g : Z -> Z) rows : (forall v, f v = g v) -> map (map f) rows = map (map g) rows.
+Proof. intros H. apply map_ext. intros r. apply map_ext. exact H. Qed.
+
+Section Skip.
+  Variable dec_syms : nat -> nat -> bytes -> option (list Z * bytes).
+  Variable skip : Z -> bool.
+
+  Lemma finish_att_refines d kid rows bs a0 r : finish_att (fun _ => false) d kid rows bs = Some (a0, r) ->
+    exists a, finish_att skip d kid rows bs = Some (a, r) /\ att_refines skip a0 a.
+  Proof.
+    unfold finish_att. cbv beta. fold (portable_desc d).
+    destruct (kid =? SEQUENTIAL_ATTRIBUTE_ENCODER_GENERIC_) eqn:E0.
+    { intros H. injection H as <- <-. eexists; split; [reflexivity|].
+      unfold att_refines. cbn [da_kind_id da_desc]. rewrite E0. cbn [orb]. split; reflexivity. }
+    destruct (kid =? SEQUENTIAL_ATTRIBUTE_ENCODER_INTEGER_) eqn:E1.
+    { destruct (dt_is_int (ad_dt d)) eqn:Ei; [|intros; discriminate]. intros H. injection H as <- <-.
+      destruct (skip (ad_type d)) eqn:Es; (eexists; split; [reflexivity|]);
+        unfold att_refines; cbn [da_kind_id da_desc da_rows da_tdata]; rewrite E0, Es; cbn [orb negb].
+      - rewrite E1. split; [reflexivity|]. split; [reflexivity|]. split; [reflexivity|]. split; [reflexivity|].
+        rewrite map_map. apply map_ext. intros row. rewrite map_map. apply map_ext. intros v. apply of_int32_mod. exact Ei.
+      - split; reflexivity. }
+    destruct (decode_parameters _ bs) as [[p r']|]; [|intros; discriminate].
+    destruct (inverse_transform p _) as [fr| |] eqn:Einv; try (intros; discriminate).
+    intros H. injection H as <- <-.
+    destruct (skip (ad_type d)) eqn:Es; (eexists; split; [reflexivity|]);
+      unfold att_refines; cbn [da_kind_id da_desc da_rows da_tdata]; rewrite E0, Es; cbn [orb negb].
+    - rewrite E1. split; [reflexivity|]. split; [reflexivity|]. split; [reflexivity|].
+      exists p, fr. split; [reflexivity|]. split; [exact Einv|reflexivity].
+    - split; reflexivity.
+  Qed.
+
+  Lemma finish_all_refines : forall ds rowss bs atts0 r, finish_all (fun _ => false) ds rowss bs = Some (atts0, r) ->
+    exists atts, finish_all skip ds rowss bs = Some (atts, r) /\ Forall2 (att_refines skip) atts0 atts.
+  Proof.
+    induction ds as [|[d kid] ds IH]; intros rowss bs atts0 r H; cbn [finish_all] in *.
+    - injection H as <- <-. exists []. split; [reflexivity|constructor].
+    - destruct rowss as [|rows rr]; [discriminate|].
+      destruct (finish_att (fun _ => false) d kid rows bs) as [[a0 r1]|] eqn:Ef; [|discriminate].
+      destruct (finish_all (fun _ => false) ds rr r1) as [[l0 r2]|] eqn:Ea; [|discriminate].
+      injection H as <- <-.
+      destruct (finish_att_refines _ _ _ _ _ _ Ef) as (a & Ea' & Ha). destruct (IH _ _ _ _ Ea) as (l & El & Hl).
+      rewrite Ea', El. eexists; split; [reflexivity|constructor; assumption].
+  Qed.
+
+  Lemma dec_decoders_atts_refines np : forall dds bs atts0 r,
+    dec_decoders_atts dec_syms (fun _ => false) np dds bs = Some (atts0, r) ->
+    exists atts, dec_decoders_atts dec_syms skip np dds bs = Some (atts, r) /\ Forall2 (att_refines skip) atts0 atts.
+  Proof.
+    induction dds as [|ds dds IH]; intros bs atts0 r H; cbn [dec_decoders_atts] in *.
+    - injection H as <- <-. exists []. split; [reflexivity|constructor].
+    - destruct (dec_all_values dec_syms np ds bs) as [[rowss r1]|]; [|discriminate].
+      destruct (finish_all (fun _ => false) ds rowss r1) as [[a0 r2]|] eqn:Ef; [|discriminate].
+      destruct (dec_decoders_atts dec_syms (fun _ => false) np dds r2) as [[l0 r3]|] eqn:Ed; [|discriminate].
+      injection H as <- <-.
+      destruct (finish_all_refines _ _ _ _ _ Ef) as (a & Ea & Ha). destruct (IH _ _ _ Ed) as (l & El & Hl).
+      rewrite Ea, El. eexists; split; [reflexivity|apply Forall2_app; assumption].
+  Qed.
+
+  Lemma dec_attributes_refines np bs atts0 r : dec_attributes dec_syms (fun _ => false) np bs = Some (atts0, r) ->
+    exists atts, dec_attributes dec_syms skip np bs = Some (atts, r) /\ Forall2 (att_refines skip) atts0 atts.
+  Proof.
+    unfold dec_attributes. destruct bs as [|nd r0]; [discriminate|].
+    destruct (dec_decoders_data _ r0) as [[dds r1]|]; [|discriminate]. apply dec_decoders_atts_refines.
+  Qed.
+
+  Context {MD : Type}.
+  Variable dec_md : bytes -> option (MD * bytes).
+
+  (** C10, point clouds: whenever the normal decode succeeds, the decode with the option succeeds on the same
+      bytes, stops at the same place, and differs only in the skipped attributes, as [att_refines] says. *)
+  Theorem skip_refines_pc bs g0 r : dec_pc_seq dec_syms dec_md (fun _ => false) bs = Some (g0, r) ->
+    exists g, dec_pc_seq dec_syms dec_md skip bs = Some (g, r) /\
+      dp_npoints g = dp_npoints g0 /\ dp_md g = dp_md g0 /\ Forall2 (att_refines skip) (dp_atts g0) (dp_atts g).
+  Proof.
+    unfold dec_pc_seq. destruct (dec_header bs) as [[[h r0]|]|]; try (intros; discriminate).
+    do 4 (match goal with |- (if ?c then None else _) = _ -> _ => destruct c; [intros; discriminate|] end).
+    match goal with |- match ?x with _ => _ end = _ -> _ => destruct x as [[md r1]|]; [|intros; discriminate] end.
+    destruct (dec_le 4 r1) as [[np r2]|]; [|intros; discriminate].
+    destruct (dec_attributes dec_syms (fun _ => false) (Z.to_nat np) r2) as [[atts0 r3]|] eqn:Ea; [|intros; discriminate].
+    intros H. injection H as <- <-.
+    destruct (dec_attributes_refines _ _ _ _ Ea) as (atts & E & HR). rewrite E.
+    eexists; split; [reflexivity|]. cbn [dp_npoints dp_md dp_atts]. repeat split; [exact HR].
+  Qed.
+
+  (** C10, meshes: additionally the connectivity is the same *)
+  Theorem skip_refines_mesh bs g0 r : dec_mesh_seq dec_syms dec_md (fun _ => false) bs = Some (g0, r) ->
+    exists g, dec_mesh_seq dec_syms dec_md skip bs = Some (g, r) /\
+      dm_npoints g = dm_npoints g0 /\ dm_md g = dm_md g0 /\ dm_faces g = dm_faces g0 /\
+      Forall2 (att_refines skip) (dm_atts g0) (dm_atts g).
+  Proof.
+    unfold dec_mesh_seq. destruct (dec_header bs) as [[[h r0]|]|]; try (intros; discriminate).
+    do 4 (match goal with |- (if ?c then None else _) = _ -> _ => destruct c; [intros; discriminate|] end).
+    match goal with |- match ?x with _ => _ end = _ -> _ => destruct x as [[md r1]|]; [|intros; discriminate] end.
+    destruct (dec_connectivity dec_syms r1) as [[[np faces] r2]|]; [|intros; discriminate].
+    destruct (dec_attributes dec_syms (fun _ => false) (Z.to_nat np) r2) as [[atts0 r3]|] eqn:Ea; [|intros; discriminate].
+    intros H. injection H as <- <-.
+    destruct (dec_attributes_refines _ _ _ _ Ea) as (atts & E & HR). rewrite E.
+    eexists; split; [reflexivity|]. cbn [dm_npoints dm_md dm_faces dm_atts]. repeat split; [exact HR].
+  Qed.
+
+  (** the converse direction does not hold: with the option a stream can decode that the normal decode rejects
+      (an integer-coded attribute of a non-integer type: StoreValues fails only when the conversion runs) *)
+  Theorem skip_converse_refuted :
+    exists d rows, finish_att (fun _ => true) d SEQUENTIAL_ATTRIBUTE_ENCODER_INTEGER_ rows [] <> None /\
+                   finish_att (fun _ => false) d SEQUENTIAL_ATTRIBUTE_ENCODER_INTEGER_ rows [] = None.
+  Proof.
+    exists {| ad_type := 0; ad_dt := DT_FLOAT32_; ad_nc := 1; ad_norm := false; ad_uid := 0 |}, [[0]].
+    split; [discriminate|reflexivity].
+  Qed.
+End Skip.
